@@ -83,6 +83,35 @@ def rule_roundup(ctx, P):
             r.ok(inst + f' ({nev} grid points over k, w, len)', func=f.name, loc=f.mod.src)
     r.require_min(2)
 
+def rule_fragment_len(ctx, P):
+    # ---------------- R08e the fragment length encode reports
+    r = ctx.rule('R08e', 'get_fragment_size: header + payload size + backend metadata size for every size the header can hold, 0 included',
+                 'encode reports fragment_len through this helper: a special case for small sizes makes the reported length disagree with the size query (empty object: 80)')
+    from ..consteval import ConstEval, Undecidable
+    g = P.fn('get_fragment_size')
+    sizer = [i for i in g.insts() if i.op == 'call' and i.callee in P.fns and i.res]
+    CE = ConstEval(P, g.mod)
+    bad = None
+    I_META, I_MAGIC = P.field_index('fragment_header_s', 'meta'), P.field_index('fragment_header_s', 'magic')
+    I_SIZE, I_BMS = P.field_index('fragment_metadata', 'size'), P.field_index('fragment_metadata', 'frag_backend_metadata_size')
+    try:
+        for inner in (0, 1, 4, 80, 4096, 1 << 20):
+            # the sizes come from a helper call (answered with `inner`) or are read from the header in place (payload size `inner`, metadata 0)
+            hdr = {(I_META, I_SIZE): inner, (I_META, I_BMS): 0, (I_MAGIC,): 0x0b0c5ecc}
+            res = CE.run(g, [('obj', 'frag', ())], objs={'frag': hdr}, call_hook=lambda ins, args, inner=inner: inner)
+            if res['ret'] != inner + 80:
+                bad = f'with a header whose payload + metadata size is {inner} the helper returns {res["ret"]}, expected {inner + 80}'
+                break
+    except Undecidable as e:
+        r.undecided('get_fragment_size: value function', loc=g.mod.src, msg=str(e))
+    else:
+        if bad:
+            r.fail('get_fragment_size: value function', func=g.name, sig='fragment length: ' + bad[:60], loc=g.mod.src,
+                   msg='the fragment length encode reports is not header size + stored sizes: ' + bad)
+        else:
+            r.ok('get_fragment_size(buf) == sizes stored in the header + 80 (0, 1, 4, 80, 4096, 2^20)', func=g.name, loc=g.mod.src)
+    r.require_min(1)
+
 def run(ctx):
     P = ctx.program()
     cg = callgraph.get(P)
@@ -217,4 +246,5 @@ def run(ctx):
     r.require_min(1)
 
     rule_roundup(ctx, P)
+    rule_fragment_len(ctx, P)
     ctx.borrow('c13', ['R13b'], 'size queries on an unknown descriptor must return an error, not dereference the failed look-up')
